@@ -748,3 +748,44 @@ Proof.
   apply (unformat_format_guarded p Hw [s; t] text (format_table_path p s t text Hs H) Hg).
   repeat constructor; auto.
 Qed.
+
+(* DDLCompiler._prepared_index_name: the schema-qualified index name is the dotted form of its two
+   components, each the output of quote() *)
+Lemma prepared_index_name_components : forall p s i x, s <> [] ->
+  prepared_index_name p true (Some s) i = Ok x ->
+  exists qs qi, quote p s = Ok qs /\ quote p i = Ok qi /\ x = qs ++ dot :: qi.
+Proof.
+  intros p s i x Hs H. unfold prepared_index_name, format_index in H. destruct s as [|c s']; [contradiction|].
+  destruct (quote p (c :: s')) as [qs|]; [|discriminate]. destruct (quote p i) as [qi|]; [|discriminate].
+  inversion H; subst. eauto.
+Qed.
+Lemma prepared_index_name_noschema : forall p sch i, (sch = None \/ sch = Some []) ->
+  prepared_index_name p true sch i = quote p i /\ forall sch', prepared_index_name p false sch' i = quote p i.
+Proof. intros p sch i [->| ->]; split; reflexivity. Qed.
+Lemma prepared_index_name_path : forall p s i x, s <> [] ->
+  prepared_index_name p true (Some s) i = Ok x -> format_path p [s; i] = Ok x.
+Proof.
+  intros p s i x Hs H. destruct (prepared_index_name_components p s i x Hs H) as (qs & qi & H1 & H2 & ->).
+  unfold format_path. cbn [quote_all]. rewrite H1, H2. reflexivity.
+Qed.
+Lemma prepared_index_name_unformat_guarded : forall p, wf_prep p = true -> forall s i text,
+  s <> [] -> i <> [] -> prepared_index_name p true (Some s) i = Ok text ->
+  (p_esc_pct p = false \/ Forall (fun v => ~ In pct v) [s; i]) ->
+  unformat p text = Some [s; i].
+Proof.
+  intros p Hw s i text Hs Hi H Hg.
+  apply (unformat_format_guarded p Hw [s; i] text (prepared_index_name_path p s i text Hs H) Hg).
+  repeat constructor; auto.
+Qed.
+(* ... and the backend reads each of the two components back as the stored name *)
+Lemma prepared_index_name_lexes_back_guarded : forall p b, wf_prep p = true -> compat p b = true ->
+  forall s i, s <> [] -> i <> [] -> bare_nl p s = false -> bare_nl p i = false ->
+  exists qs qi, prepared_index_name p true (Some s) i = Ok (qs ++ dot :: qi) /\
+                lex_sent b qs = Some (stored p b s) /\ lex_sent b qi = Some (stored p b i).
+Proof.
+  intros p b Hw Hc s i Hs Hi Hgs Hgi.
+  destruct (quote_lexes_back_guarded p b Hw Hc s Hs Hgs) as (qs & Hqs & Hls).
+  destruct (quote_lexes_back_guarded p b Hw Hc i Hi Hgi) as (qi & Hqi & Hli).
+  exists qs, qi. split; auto. unfold prepared_index_name, format_index. destruct s as [|c s']; [contradiction|].
+  now rewrite Hqs, Hqi.
+Qed.
